@@ -4,6 +4,8 @@ package main
 // Injected with `go test -overlay` (nothing is written to /repo).
 
 import (
+	"crypto/x509"
+	"net"
 	"encoding/hex"
 	"encoding/json"
 	"net/http"
@@ -161,6 +163,41 @@ func TestVerifReplayCheckAuthKind(t *testing.T) {
 	t.Logf("required=%#x bob's keymaster user certificate -> admitted as %q with level %#x", mask, ai.Username, ai.AuthType)
 	if ai.AuthType&mask == 0 {
 		t.Logf("REPLAY-CONFIRMED: admitted with a credential kind the endpoint does not accept")
+	} else {
+		t.Logf("REPLAY-NOT-REPRODUCED")
+	}
+}
+
+// C06: an IP-restricted automation certificate whose key is on the deny list.
+func TestVerifReplayDeniedIPCert(t *testing.T) {
+	state, passwdFile, err := setupValidRuntimeStateSigner(t)
+	if err != nil {
+		t.Fatal(err)
+	}
+	defer os.Remove(passwdFile.Name())
+	state.Config.Base.AutomationUsers = append(state.Config.Base.AutomationUsers, "role1")
+	userPub, err := getPubKeyFromPem(testUserPEMPublicKey)
+	if err != nil {
+		t.Fatal(err)
+	}
+	netblock := net.IPNet{IP: net.ParseIP("127.0.0.0"), Mask: net.CIDRMask(8, 32)}
+	params := roleRequestingCertGenParams{Role: "role1", Duration: time.Hour, RequestorNetblocks: []net.IPNet{netblock}, UserPub: userPub}
+	_, rrcert, err := state.withParamsGenerateRoleRequestingCert(&params)
+	if err != nil {
+		t.Fatal(err)
+	}
+	fp, err := getKeyFingerprint(rrcert.PublicKey)
+	if err != nil {
+		t.Fatal(err)
+	}
+	state.Config.DenyTrustData.KeyDenyFPsshSha256 = []string{fp}
+	req := httptest.NewRequest("POST", refreshRoleRequestingCertPath, nil)
+	req.RemoteAddr = "127.0.0.1:12345"
+	chains := [][]*x509.Certificate{{rrcert}}
+	user, _, userErr, err := state.getUsernameIfIPRestricted(chains, req)
+	t.Logf("deny-listed key %s.. presented from inside the netblock -> user=%q userErr=%v err=%v", fp[:12], user, userErr, err)
+	if userErr == nil && err == nil && user != "" {
+		t.Logf("REPLAY-CONFIRMED: a deny-listed key authenticates through an IP-restricted certificate")
 	} else {
 		t.Logf("REPLAY-NOT-REPRODUCED")
 	}
